@@ -227,6 +227,9 @@ mod stream_run {
         pub events: Vec<Event>,
         pub total_events: u64,
         pub stream_len: u64,
+        /// the stream's own view of its header tables (as reported by its public API)
+        pub own_shdrs: Vec<crate::hdr::Shdr>,
+        pub own_phdrs: Vec<crate::hdr::Phdr>,
     }
 
     /// The single-allocation bound of C08 for a stream of length `len`.
@@ -276,7 +279,35 @@ mod stream_run {
         let (tag, es) = stream_open::<E, _>(&ctx, SimReader::new(st.clone()), &mut k);
         steps.push(snapshot(&st, 0, 0, false, false, finish(tag, k)));
         let opened = es.is_some();
+        let mut own_shdrs = Vec::new();
+        let mut own_phdrs = Vec::new();
         if let Some(mut es) = es {
+            for h in es.section_headers().iter() {
+                own_shdrs.push(crate::hdr::Shdr {
+                    name: h.sh_name,
+                    typ: h.sh_type,
+                    flags: h.sh_flags,
+                    addr: h.sh_addr,
+                    offset: h.sh_offset,
+                    size: h.sh_size,
+                    link: h.sh_link,
+                    info: h.sh_info,
+                    addralign: h.sh_addralign,
+                    entsize: h.sh_entsize,
+                });
+            }
+            for p in es.segments().iter() {
+                own_phdrs.push(crate::hdr::Phdr {
+                    typ: p.p_type,
+                    flags: p.p_flags,
+                    offset: p.p_offset,
+                    vaddr: p.p_vaddr,
+                    paddr: p.p_paddr,
+                    filesz: p.p_filesz,
+                    memsz: p.p_memsz,
+                    align: p.p_align,
+                });
+            }
             let passes: &[bool] = if sc.epilogue { &[false, true] } else { &[false] };
             for &epi in passes {
                 if epi && sc.reader.heal_at_epilogue {
@@ -306,6 +337,8 @@ mod stream_run {
             events: s.events.clone(),
             total_events: s.seq,
             stream_len: len,
+            own_shdrs,
+            own_phdrs,
         }
     }
 }
